@@ -43,19 +43,20 @@ def run(ctx):
     rp = vlib.compile_harness(vlib.VERIF + "/harness/suspend_point_replay.cpp", "suspend_point_replay",
                               sanitize=not ctx.quick)
     q = ctx.quick
+    full = ALL_OPS + ["Finish"]
+    grow = ["ConstructEmpty", "MoveConstruct", "AddHandle", "AddTo", "MergeShl", "Pop", "Clear", "Destroy", "CoAwait", "Finish"]
     jobs = [
-        # (cfg, tag, constants, must_take, max_paths, extra_random)
-        ("SP_all.cfg", "all", {"MaxObj": 2, "MaxH": 5 if q else 6}, ALL_OPS + ["Finish"], None, 100 if q else 1000),
-        ("SP_typed.cfg", "typed", {"MaxSteps": 4 if q else 5}, ALL_OPS + ["Finish"], None, 100 if q else 1000),
-        ("SP_grow.cfg", "grow", {"MaxSteps": 9 if q else 10},
-         ["ConstructEmpty", "AddHandle", "AddFill", "MergeShl", "Pop", "Destroy", "Finish"], None, 100 if q else 1000),
+        # (cfg, tag, constants, must_take, extra_random)
+        ("SP_all.cfg", "all", {"MaxObj": 2, "MaxH": 5 if q else 6}, full, 100 if q else 1000),
+        ("SP_typed.cfg", "typed", {"MaxSteps": 4 if q else 5}, full, 100 if q else 1000),
+        ("SP_grow.cfg", "grow", {"MaxSteps": 6 if q else 7}, grow + ["MoveAssign"], 100 if q else 1000),
     ]
     if not q:
-        jobs.append(("SP_deep.cfg", "deep", None, ["AddHandle", "AddFill", "MergeShl", "Pop", "Destroy", "CoAwait", "Finish"],
-                     None, 1000))
-    for (cfg, tag, consts, must, maxp, rnd) in jobs:
+        jobs.append(("SP_all.cfg", "all3", {"MaxObj": 3, "MaxH": 4}, full, 1000))
+        jobs.append(("SP_deep.cfg", "deep", None, grow, 1000))
+    for (cfg, tag, consts, must, rnd) in jobs:
         graph_replay(ctx, "SuspendPoint", "SuspendPoint", cfg, tag, rp, proj, header_fn=hdr, must_take=must,
-                     constants=consts, max_paths=maxp, extra_random=rnd, tlc_kw={"workers": 4})
+                     constants=consts, extra_random=rnd, tlc_kw={"workers": 4})
     ctx.assume("handles are coroutines that neither touch the suspend point being operated on nor the ready queue "
                "(re-entrant use of a suspend point from a coroutine it resumes is not modelled)")
     ctx.assume("each handle is handed to a suspend point at most once and lives in one suspend point at a time; "
